@@ -163,3 +163,125 @@ func (c *Ctx) ownerNames(fn *ssa.Function) []string {
 	}
 	return sortedKeys(set)
 }
+
+// blocks: the basic blocks of fn and of the new helpers extracted from it.
+func (c *Ctx) blocks(fn *ssa.Function) []*ssa.BasicBlock {
+	out := append([]*ssa.BasicBlock{}, fn.Blocks...)
+	for _, h := range c.newCallees(fn) {
+		out = append(out, h.Blocks...)
+	}
+	return out
+}
+
+// Origin is one way a value can come about: a leaf value (term rendered in the
+// frame it lives in) together with the place that selects it — the end of the
+// predecessor block of a phi edge, or the return statement of a new helper.
+type Origin struct {
+	Val        ssa.Value
+	Term       string
+	At         ssa.Instruction // reaching this instruction (then Pred→Succ, if set) selects the origin
+	Pred, Succ *ssa.BasicBlock
+	Elems      []string // for a slice literal: the terms of its elements
+}
+
+// originsOf flattens phis and the results of new helpers into their leaf origins.
+func (c *Ctx) originsOf(v ssa.Value, at ssa.Instruction) []Origin {
+	return c.originsRec(v, at, nil, nil, 0, map[ssa.Value]bool{})
+}
+
+func (c *Ctx) originsRec(v ssa.Value, at ssa.Instruction, pred, succ *ssa.BasicBlock, depth int, seen map[ssa.Value]bool) []Origin {
+	v = c.resolve(v)
+	leaf := func() []Origin {
+		o := Origin{Val: v, Term: c.term(v), At: at, Pred: pred, Succ: succ}
+		for _, e := range sliceLitElems(v) {
+			o.Elems = append(o.Elems, c.term(e))
+		}
+		return []Origin{o}
+	}
+	if depth > 6 || seen[v] {
+		return leaf()
+	}
+	switch x := v.(type) {
+	case *ssa.Phi:
+		seen[v] = true
+		var out []Origin
+		for i, e := range x.Edges {
+			p := x.Block().Preds[i]
+			if c.resolve(e) == ssa.Value(x) {
+				continue
+			}
+			out = append(out, c.originsRec(e, p.Instrs[len(p.Instrs)-1], p, x.Block(), depth+1, seen)...)
+		}
+		delete(seen, v)
+		return out
+	case *ssa.Call:
+		if cal := x.Common().StaticCallee(); cal != nil && c.isNew(cal) && cal.Signature.Results().Len() == 1 {
+			return c.retOrigins(x, cal, 0, depth, seen)
+		}
+	case *ssa.Extract:
+		if call, ok := x.Tuple.(*ssa.Call); ok {
+			if cal := call.Common().StaticCallee(); cal != nil && c.isNew(cal) {
+				return c.retOrigins(call, cal, x.Index, depth, seen)
+			}
+		}
+	}
+	return leaf()
+}
+
+func (c *Ctx) retOrigins(call *ssa.Call, cal *ssa.Function, idx, depth int, seen map[ssa.Value]bool) []Origin {
+	for _, f := range c.frames {
+		if f.Common().StaticCallee() == cal {
+			return []Origin{{Val: call, Term: c.term(call), At: call}}
+		}
+	}
+	c.frames = append(c.frames, call)
+	defer func() { c.frames = c.frames[:len(c.frames)-1] }()
+	var out []Origin
+	for _, ret := range returnsOf(cal) {
+		if idx < len(ret.Results) {
+			out = append(out, c.originsRec(ret.Results[idx], ret, nil, nil, depth+1, seen)...)
+		}
+	}
+	return out
+}
+
+// reqAt: every path of fn that selects origin o passes an edge witnessing m.
+func (c *Ctx) reqAt(fn *ssa.Function, o Origin, m LitMatch) bool {
+	if o.Pred != nil && o.Succ != nil {
+		if l, ok := c.edgeLitTo(o.Pred, o.Succ); ok && m(l) {
+			return true
+		}
+	}
+	at := o.At
+	_, ok := c.Requires(fn, func(x ssa.Instruction) bool { return x == at }, m, nil)
+	return ok
+}
+
+// loopsDeep: the natural loops of fn and of the new helpers extracted from it.
+func (c *Ctx) loopsDeep(fn *ssa.Function) []*Loop {
+	out := loopsOf(fn)
+	for _, h := range c.newCallees(fn) {
+		out = append(out, loopsOf(h)...)
+	}
+	return out
+}
+
+// inLoop: block b belongs to loop l, directly or because it lies in a new
+// helper whose (unique) call chain enters from a block of l.
+func (c *Ctx) inLoop(l *Loop, b *ssa.BasicBlock) bool {
+	if l.Blocks[b] {
+		return true
+	}
+	fn := b.Parent()
+	for i := 0; i < 6 && fn != nil; i++ {
+		site := c.inlineSite(fn)
+		if site == nil || site.Block() == nil {
+			return false
+		}
+		if l.Blocks[site.Block()] {
+			return true
+		}
+		fn = site.Parent()
+	}
+	return false
+}
